@@ -23,7 +23,34 @@ RECURSIVE Sum14(_)
 Sum14(s) == IF Len(s) = 0 THEN <<0>> ELSE Add14(Head(s), Sum14(Tail(s)))
 TolExp(ft) == IF ft = "f32" THEN 64 - 19 ELSE 64 - 40
 
-Rule == /\ Ev.res = "Ok"
+(* C08 with FLOAT weights ("alaw"): WeightedAliasIndex::sample draws a column with its first word and compares a uniform  *)
+(* draw of its second word with the column's threshold.  The column draw is rand's Uniform<u32> (rejection makes every   *)
+(* column exactly equally likely: trusted base; the measured column widths c_i are only checked to be 2^64 / n within     *)
+(* 2^-28).  Per column the harness reports the value o0 returned for the smallest second word, the value o1 for the       *)
+(* largest, and the number T of second words returning o0 (a prefix).  The mass of index k is                             *)
+(*      (1 / n) SUM_i (T_i [o0_i = k] + (2^64 - T_i) [o1_i = k]) / 2^64                                                   *)
+(* and must equal w_k / W:  | mass_k W - n w_k 2^64 | <= tol n W 2^64, tol = 2^-38 (f64) / 2^-18 (f32), exact integers.   *)
+ColMass(col, k) == LET a == IF col.o0 = k THEN col.T ELSE <<0>>
+                       b == IF col.o1 = k THEN SubFrom(Pow2(64), col.T, 1, 0) ELSE <<0>>
+                   IN  Add14(a, b)
+RECURSIVE MassSum(_, _)
+MassSum(cols, k) == IF Len(cols) = 0 THEN <<0>> ELSE Add14(ColMass(Head(cols), k), MassSum(Tail(cols), k))
+RECURSIVE CSum(_)
+CSum(cols) == IF Len(cols) = 0 THEN <<0>> ELSE Add14(Head(cols).c, CSum(Tail(cols)))
+ATolExp(ft) == IF ft = "f32" THEN 64 - 18 ELSE 64 - 38
+NL(n) == <<n>>                                                                      \* n < 2^14 as a one-limb number
+AliasRule == /\ Ev.res = "Ok" /\ Len(Ev.wq) = Ev.n /\ Len(Ev.cols) = Ev.n
+             /\ Cmp(CSum(Ev.cols), Pow2(64)) = 0                                  \* the columns partition the first word's range
+             /\ \A i \in 1..Len(Ev.cols) :
+                   /\ Ev.cols[i].two_words /\ Ev.cols[i].o0 < Ev.n /\ Ev.cols[i].o1 < Ev.n /\ Cmp(Ev.cols[i].T, Pow2(64)) <= 0
+                   /\ Cmp(AbsDiff(Mul(Ev.cols[i].c, NL(Ev.n)), Pow2(64)), Mul(NL(Ev.n), Pow2(36))) <= 0     \* width 2^64 / n within 2^-28
+             /\ LET W == Sum14(Ev.wq) IN
+                \A k \in 1..Ev.n :
+                   LET mass == MassSum(Ev.cols, k - 1) IN
+                   /\ Cmp(AbsDiff(Mul(mass, W), Mul(Mul(Ev.wq[k], NL(Ev.n)), Pow2(64))), Mul(Mul(W, NL(Ev.n)), Pow2(ATolExp(Ev.ft)))) <= 0
+                   /\ (Cmp(Ev.wq[k], <<0>>) = 0) => (Cmp(mass, <<0>>) = 0)       \* a zero weight is never returned
+
+TreeRule == /\ Ev.res = "Ok"
         /\ Ev.intervals                                   \* every index's preimage is a single interval, every output < len
         /\ Len(Ev.len) = Ev.n /\ Len(Ev.wq) = Ev.n
         /\ Cmp(Sum14(Ev.len), Pow2(64)) = 0               \* the intervals partition the word range
@@ -31,6 +58,8 @@ Rule == /\ Ev.res = "Ok"
            \A k \in 1..Ev.n :
               /\ Cmp(AbsDiff(Mul(Ev.len[k], W), Mul(Ev.wq[k], Pow2(64))), Mul(W, Pow2(TolExp(Ev.ft)))) <= 0
               /\ (Cmp(Ev.wq[k], <<0>>) = 0) => (Cmp(Ev.len[k], <<0>>) = 0)
+
+Rule == CASE Ev.op = "flaw" -> TreeRule [] Ev.op = "alaw" -> AliasRule [] OTHER -> FALSE
 
 TInit == l = 1
 TNext == /\ l <= Len(Rec) /\ l' = l + 1
